@@ -198,6 +198,33 @@ class Heap(object):
         f = z3.Function("P_idx", *([a.sort() for a in args] + [IntS, IntS, IntS]))
         return VInt(f(*(args + [x.t, y.t])))
 
+    def post(self, x):
+        """Q(x): the nodes of the subtree of x in postorder (spec function of the shape arrays)"""
+        args = self._shape_args()
+        sorts = [a.sort() for a in args]
+        flen = z3.Function("Q_len", *(sorts + [IntS, IntS]))
+        fel = z3.Function("Q_el", *(sorts + [IntS, IntS, IntS]))
+        return VList(flen(*(args + [x.t])), get=lambda i: VRef(fel(*(args + [x.t, i]))), et=None)
+
+    def post_idx(self, x, y):
+        """position of y in Q(x)"""
+        args = self._shape_args()
+        f = z3.Function("Q_idx", *([a.sort() for a in args] + [IntS, IntS, IntS]))
+        return VInt(f(*(args + [x.t, y.t])))
+
+    def nn(self, x):
+        """NN(x): number of nodes of the subtree of x"""
+        args = self._shape_args()
+        f = z3.Function("G_nn", *([a.sort() for a in args] + [IntS, IntS]))
+        return VInt(f(*(args + [x.t])))
+
+    def snnc(self, x, k):
+        """SNNC(x, k): number of nodes below the first k *ordered* children of x"""
+        args = self._shape_args()
+        f = z3.Function("G_snnc", *([a.sort() for a in args] + [IntS, IntS, IntS]))
+        k = k.t if isinstance(k, VInt) else (z3.IntVal(k) if isinstance(k, int) else k)
+        return VInt(f(*(args + [x.t, k])))
+
     def hgt(self, x):
         """a rank that strictly decreases from a node to each of its children (well-foundedness of the tree)"""
         f = z3.Function("G_hgt", self.f["parent"].sort(), self.f["child"].sort(), IntS, IntS)
